@@ -306,7 +306,7 @@ def plan(prop, tier):
             if n == "exh":
                 out.append((n, s, ["--depth", "3"]))
             else:
-                out.append((n, s * 36, e))
+                out.append((n, s * 24, e))
         out += THOROUGH_EXTRA.get(prop, [])
         return out
     # quick tier: three times the listed sequence counts (a whole quick check stays well under a minute)
